@@ -23,6 +23,10 @@ type Message struct {
 	source  []byte
 	seen    atomic.Bool   // Read by consumers of a returned message without the mailbox lock.
 	el      *list.Element // This message in Store.messages
+
+	// Size enforcer bookkeeping, touched only by the enforcer goroutine.
+	accounted bool // Size is currently included in the enforcer's total.
+	gone      bool // Removal has been processed; a late delivery notice must be ignored.
 }
 
 var _ storage.Message = &Message{}
